@@ -213,7 +213,8 @@ RW_EV3 = make_event("A", 20001, 302, [["t", "x"]], "ephemeral, announced like an
 RW_EARLY = make_event("B", 1, 299, [], "accepted while this worker's notifier client had not connected yet")
 # "early": the subscriber's worker accepted RW_EARLY before its notifier client was connected (that announcement fails); afterwards
 # the OTHER worker accepts RW_EV, which must still reach the subscriber
-RW_EVENTS = {"tagged": RW_EV, "kind0": RW_EV2, "ephemeral": RW_EV3, "early": RW_EV}
+# "miss_first": the subscriber's worker looked the id up (and found nothing) before the other worker accepted the event
+RW_EVENTS = {"tagged": RW_EV, "kind0": RW_EV2, "ephemeral": RW_EV3, "early": RW_EV, "miss_first": RW_EV}
 
 
 class JobWriter:
@@ -282,6 +283,9 @@ def rw_scenario(backend, policy, evname):
             pending.append((r_cli, w_cli))
             loop.create_task(server.handle_notify(r_srv, w_srv))
         loop.run_coro(st2.setup(), horizon=1e6)
+        if evname == "miss_first":
+            if loop.run_coro(st2.get_event(RW_EV["id"]), horizon=1e6) is not None:
+                raise HarnessError("the event is already there")
         if evname == "early":
             if w.storage.notifier is None or w.storage.notifier.writer is not None:
                 raise HarnessError("the notifier client of worker 1 is already connected")
@@ -329,7 +333,7 @@ def rw_cases(tier):
 
     out = []
     for policy in ("disk-first", "network-first"):
-        for evname in ("tagged", "kind0", "ephemeral", "early"):
+        for evname in ("tagged", "kind0", "ephemeral", "early", "miss_first"):
             scn = rw_scenario("sql", policy, evname)
             out.append(("rw", policy, evname, ()))
             if tier == "thorough":
